@@ -394,6 +394,12 @@ def fmt_alloc_call(caller):
     return '[{} alloc]'.format(caller)
 
 
+def _escape_string_literal(s):
+    # backslash, double quote and control characters cannot appear raw in a literal
+    return (s.replace('\\', '\\\\').replace('"', '\\"').replace('\n', '\\n')
+            .replace('\r', '\\r').replace('\t', '\\t'))
+
+
 def fmt_default_value(field):
     if is_tag_ref(field.default):
         return '[[{} alloc] initWith{}]'.format(
@@ -408,7 +414,7 @@ def fmt_default_value(field):
             bool_str = 'NO'
         return '@{}'.format(bool_str)
     elif is_string_type(field.data_type):
-        return '@"{}"'.format(field.default)
+        return '@"{}"'.format(_escape_string_literal(field.default))
     else:
         raise TypeError(
             'Can\'t handle default value type %r' % type(field.data_type))
